@@ -102,8 +102,12 @@ def math_call(ex, st, name, args):
     if name in ('lround', 'lroundf'):
         x = real(a[0])
         r = z3.If(x >= 0, z3.ToInt(x + Rv(Fraction(1, 2))), -z3.ToInt(-x + Rv(Fraction(1, 2))))
-        ex.safe(st, 'lround', z3.And(r >= -(1 << 63), r < (1 << 63)))
-        return IntV(r, parse_type_str('long'))
+        # C11 7.12.9.7: a rounded value outside the range of long gives an unspecified result (domain error), not
+        # undefined behaviour — the call returns SOME long
+        from .state import State
+        u = State.fresh('lround_unspecified', z3.IntSort())
+        st.assume(z3.And(u >= -(1 << 63), u < (1 << 63)))
+        return IntV(z3.If(z3.And(r >= -(1 << 63), r < (1 << 63)), r, u), parse_type_str('long'))
     if name in ('abs', 'fabs', 'fabsf'):
         if isinstance(a[0], IntV):
             return IntV(z3.If(a[0].t < 0, -a[0].t, a[0].t), a[0].ct)
